@@ -464,7 +464,7 @@ func init() {
 			"non-trivial = the reference fails at step j while a later index, applied to that same level, addresses something descendable (the sibling-substitution shape); distinct = (tree, path).",
 		Assumptions: []string{"'exactly the value' is read strictly: the dynamic type and identity of the result must equal what Index yields (an alias stays an alias)"},
 		Floors: func(tier string) map[string]int64 {
-			return map[string]int64{"paths.sibling-substitution-shape": 1000, "paths.succeeding": 10000, "trees.second-phase-after-live-changes": 1000}
+			return map[string]int64{"paths.sibling-substitution-shape": 1000, "paths.succeeding": 10000, "special.wide-levels": 5, "special.homonym-types": 5, "cases.with-bystander-goroutines": 150, "trees.second-phase-after-live-changes": 1000}
 		},
 	})
 }
